@@ -61,6 +61,138 @@ CHECKS = {
              "comparisons, sympy formulas up to size 3/4), range box 0..6.",
         technique="symbolic literals through the real rule + symbolic translation validation with z3 (LIA)",
     ),
+
+    "C01": dict(
+        category="translation_validation",
+        text="Symbolic translation validation of the whole real pipeline: format_code (16 option combinations) is run in "
+             "symbolic-literal mode on closed programs (repository before-snippets auto-closed with symbolic inputs, "
+             "grammar-enumerated programs, literal-sensitive families); original and refactored program are executed "
+             "symbolically and z3 decides trace equality + normal termination for all inputs / tape values / literals "
+             "of the path.",
+        design_ref="DESIGN.md section 4 / C01",
+        note="Trusted: z3, proxies, CPython as semantics of both programs; every counterexample replayed as a closed "
+             "concrete program through the unmodified pipeline and the real interpreter. Bounded: inputs -3..3, tape <= 12, "
+             "fuel <= 600, the program families.",
+        technique="symbolic literals through the real pipeline + symbolic translation validation with z3",
+    ),
+    "C02": dict(
+        category="translation_validation",
+        text="The same oracle with T = one rule (every rule named in main.py, read at run time, composed with the "
+             "pipeline's own import completion): own before-snippets, every rule on a pool sample, literal-sensitive "
+             "rules on their symbolic-literal families.",
+        design_ref="DESIGN.md section 4 / C02",
+        note="As C01. numpy/pandas/import rules are not exercised (listed in evidence). A (rule, program) pair counts only "
+             "when the rule changes the text.",
+        technique="symbolic translation validation per rule with z3",
+    ),
+    "C03": dict(
+        category="model_checking",
+        text="Bounded symbolic model checking of the validity guards on the real functions with the un-encodable callee "
+             "replaced by solver-chosen outcomes (_apply_rewrites, _replace_nodes, format_file write guard, fix/chain "
+             "with symbolic ranges and solver-chosen replacement texts, sub), plus the pool obligation 'output parses on "
+             "every path of the symbolic-literal run'.",
+        design_ref="DESIGN.md section 4 / C03",
+        note="Stubs listed in evidence. The universal claim over all texts is out of reach (ast.parse is C); the pool "
+             "obligation has a degenerate symbolic dimension (branched_on reported).",
+        technique="symbolic execution of guard logic with nondeterministic stubs (z3) + pool obligation",
+    ),
+    "C04": dict(
+        category="model_checking",
+        text="Totality kernels decided symbolically: literal_value raises only ValueError (symbolic leaves), scheduler "
+             "offset arithmetic for synthesised insertion positions (symbolic line/column incl. one past the end), "
+             "_do_rewrite candidate selection with validity a solver Boolean, loop budgets with a solver-chosen number "
+             "of changing passes; pool obligation 'nothing escapes' over rule patterns at every file position.",
+        design_ref="DESIGN.md section 4 / C04",
+        note="Whole-input totality over all strings and termination of the self-recursive text rules are outside.",
+        technique="symbolic execution of totality kernels with z3 + pool obligation",
+    ),
+    "C05": dict(
+        category="model_checking",
+        text="One inductive step instead of histories: on every path of the symbolic-literal run, after the call every "
+             "tree handed out by the cached core.parse still dumps like a fresh parse (representation invariant), and a "
+             "second / third call (after an interposed history incl. a rolled-back transaction) returns the identical text.",
+        design_ref="DESIGN.md section 4 / C05",
+        note="Degenerate symbolic dimension (literals only), stated in evidence; eviction order outside.",
+        technique="inductive cache-invariant check on symbolic-literal runs",
+    ),
+    "C06": dict(
+        category="model_checking",
+        text="Scheduler order-independence lemmas over all permutations of the yield order with symbolic ranges; "
+             "format_files bookkeeping against a sequential reference model with the pool stubbed by starmap's contract "
+             "and a solver-chosen execution order and 'changed' bits; hash-seed witness runs.",
+        design_ref="DESIGN.md section 4 / C06",
+        note="Whether an individual rule's set iteration reaches the output is outside; rests on C05 for long-lived workers.",
+        technique="symbolic execution of scheduler / format_files with z3 over all yield and execution orders",
+    ),
+    "C07": dict(
+        category="model_checking",
+        text="format_code(safe=True) in symbolic-literal mode on libraries built to provoke every deleting/renaming rule; "
+             "a hidden observer resolves every name of the public surface in the executed output.",
+        design_ref="DESIGN.md section 4 / C07",
+        note="Degenerate symbolic dimension (one path = one concrete run for most libraries), stated in evidence.",
+        technique="pool obligation with hidden observer on symbolic-literal runs",
+    ),
+    "C08": dict(
+        category="translation_validation",
+        text="Library + client pairs: preserve set from the real _used_names_in_file, format_code(preserve=S) once/twice "
+             "and the real CLI on files; symbolic translation validation of L;K against L';K for all client inputs.",
+        design_ref="DESIGN.md section 4 / C08",
+        note="CLI path runs pyrefact concretely (markers pinned); pool stubbed in-process.",
+        technique="symbolic translation validation of library+client with z3",
+    ),
+    "C09": dict(
+        category="model_checking",
+        text="Antisymmetry of _orelse_preferred_as_body on abstract branches with symbolic statement kinds (z3), cycle-cut "
+             "idempotence of format_code with _multi_run_fixes a solver-chosen table, and six successive applications on "
+             "every path of the symbolic-literal run over the pool.",
+        design_ref="DESIGN.md section 4 / C09",
+        note="Lemma counterexamples are concretised and replayed as real ping-pong before being reported.",
+        technique="symbolic execution of the orientation heuristic and the fix-point loop with z3 + pool obligation",
+    ),
+    "C13": dict(
+        category="model_checking",
+        text="Match._lineno_col_offset for a symbolic span start and get_charnos for symbolic node positions over line "
+             "layouts (CRLF, form feed, U+2028, non-ASCII) against an independent line model; API coherence and per-match "
+             "geometry on sources with symbolic constants.",
+        design_ref="DESIGN.md section 4 / C13",
+        note="get_charnos part concretises at the string slice (bounded enumeration through the solver, labelled).",
+        technique="symbolic execution of offset arithmetic with z3 vs independent line model",
+    ),
+    "C14": dict(
+        category="model_checking",
+        text="subn with a symbolic count (all integers); self-substitution / permuting replacements / untouched lines / "
+             "ignore lines on sources whose constants are solver variables.",
+        design_ref="DESIGN.md section 4 / C14",
+        note="Exact-tree clause only for disjoint matches; enumerated shapes.",
+        technique="symbolic execution of subn / sub with z3 (count and constants symbolic)",
+    ),
+    "C16": dict(
+        category="model_checking",
+        text="is_blocking on every statement shape of nesting <= 2 (thorough 3) with constant, symbolic-literal and tape "
+             "tests: where it answers True the next statement is unreachable under every tape valuation; consumers "
+             "(delete_unreachable_code, delete_pointless_statements, ...) by symbolic translation validation.",
+        design_ref="DESIGN.md section 4 / C16",
+        note="Tape functions do not raise; fuel 300.",
+        technique="symbolic execution of the analyses + symbolic translation validation with z3",
+    ),
+    "C19": dict(
+        category="translation_validation",
+        text="Symbolic translation validation of format_code (unsafe) and the renaming rules on programs with "
+             "adversarially drawn identifiers bound in every way Python allows; duplicate detection with symbolic "
+             "constants plus concrete hash-collision witnesses.",
+        design_ref="DESIGN.md section 4 / C19",
+        note="Identifiers are concrete strings (regex on symbolic str is out of reach).",
+        technique="symbolic translation validation with z3 on adversarial identifier families",
+    ),
+    "C20": dict(
+        category="model_checking",
+        text="has_ignore_comment for symbolic ranges vs an independent line model, scheduler clause 'ignored line "
+             "untouched' for all range geometries, _do_rewrite on annotated lines, and the pool obligation 'annotated line "
+             "verbatim in the output' for every physical line of rule-specific skeletons (incl. direct-edit rules).",
+        design_ref="DESIGN.md section 4 / C20",
+        note="Pool part has a degenerate symbolic dimension.",
+        technique="symbolic execution of range logic with z3 + pool obligation",
+    ),
 }
 
 NOT_APPLICABLE = {
